@@ -9,6 +9,7 @@ import z3
 
 from . import api, sym
 from .interp import (
+    SpecAbort,
     ExcInst,
     Frame,
     FStr,
@@ -175,6 +176,27 @@ def _deep_copy_value(v, memo):
     return v
 
 
+class _AnyId:
+    """During speculation every heap write aborts (objects created inside the arm included:
+    they may be reachable afterwards)."""
+
+    def __contains__(self, x):
+        return True
+
+
+class _Poison:
+    def __init__(self, name):
+        self.name = name
+
+    def __repr__(self):
+        return f"<stale loop temporary {self.name}>"
+
+
+class _Deferred:
+    def __init__(self, name):
+        self.name = name
+
+
 class Ctx:
     """State of one path exploration; hooks default to 'not handled'."""
 
@@ -208,12 +230,16 @@ class Ctx:
         self.trig_cache = {}
         self.inputs = {}  # name -> recipe
         self.named = {}
+        self.deferred = []
         self.writes = []
         self.log = []
         self.callstack = []
         self.choices = []
         self.steps = 0
         self.ghost = {}
+        self.speculating = 0
+        self.if_conversion = not bool(os.environ.get("PYVC_NO_IFCONV"))
+        self.entry_ids_all = _AnyId()
         PObj._n = 0
 
     def tick(self, st):
@@ -271,6 +297,8 @@ class Ctx:
         cond = simp(cond)
         if isinstance(cond, bool):
             return cond
+        if self.speculating:
+            raise SpecAbort()
         idx = self.dec_idx
         self.dec_idx += 1
         if idx < len(self.prefix):
@@ -334,19 +362,21 @@ class Ctx:
         lc._name = f"{self.contract.name}/{fr.func.qualname}.loop{ordinal}"
         return lc
 
-    def _loop_env(self, fr):
-        return fr.locals
+    def _spec_frame(self, fr):
+        sub = Frame(self.sidecar, fr.func, True, fr.locals, fr.depth)
+        sub.fallback = fr.module
+        return sub
 
     def _check_invs(self, lc, fr, kind):
         for i, text in enumerate(lc.invariants):
-            sub = Frame(fr.module, fr.func, True, fr.locals, fr.depth)
+            sub = self._spec_frame(fr)
             tree = ast.parse(text.strip(), mode="eval")
             g = self.I.truth(self.I.eval(tree.body, sub))
             self.check(g, f"{lc._name}/{kind}#{i}", kind, text)
 
     def _assume_invs(self, lc, fr):
         for text in lc.invariants:
-            sub = Frame(fr.module, fr.func, True, fr.locals, fr.depth)
+            sub = self._spec_frame(fr)
             tree = ast.parse(text.strip(), mode="eval")
             self.assume(self.I.truth(self.I.eval(tree.body, sub)))
 
@@ -371,6 +401,11 @@ class Ctx:
                                 f"loop at line {st.lineno} stores to {ast.unparse(x)}: "
                                 "give the loop contract an explicit modifies")
         for name, desc in mods.items():
+            if desc == "rebound":
+                # loop-local temporary that every iteration assigns before reading: poison it so
+                # that a read-before-write is reported instead of silently using a stale value
+                fr.locals[name] = _Poison(name)
+                continue
             label = self.fresh_label(f"{name}'")
             if "." in name:
                 base, field = name.rsplit(".", 1)
@@ -415,7 +450,7 @@ class Ctx:
         self._assume_invs(lc, fr)
         var0 = None
         if lc.variant:
-            sub = Frame(fr.module, fr.func, True, fr.locals, fr.depth)
+            sub = self._spec_frame(fr)
             var0 = I.eval(ast.parse(lc.variant, mode="eval").body, sub)
         c = I.truth(I.eval(st.test, fr), st)
         if self.branch(c, st):
@@ -427,7 +462,7 @@ class Ctx:
                 pass
             self._check_invs(lc, fr, "inv-step")
             if lc.variant:
-                sub = Frame(fr.module, fr.func, True, fr.locals, fr.depth)
+                sub = self._spec_frame(fr)
                 var1 = I.eval(ast.parse(lc.variant, mode="eval").body, sub)
                 g = b_and(sym.num_cmp("<", var1, var0), sym.num_cmp(">=", var0, 0))
                 self.check(g, f"{lc._name}/variant", "variant", f"{lc.variant} decreases and is bounded below")
@@ -447,12 +482,14 @@ class Ctx:
         if n is NotImplemented:
             if isinstance(it, PList):
                 n = len(it.items)
+            elif isinstance(it, range):
+                n = len(it)
             else:
                 raise Unsupported(f"loop contract on iteration over {type(it).__name__}")
         fr.locals[idx] = 0
         fr.locals["_n"] = n
         for gname, gexpr in (getattr(lc, "ghost", None) or {}).items():
-            sub = Frame(fr.module, fr.func, True, fr.locals, fr.depth)
+            sub = self._spec_frame(fr)
             fr.locals[gname] = I.eval(ast.parse(gexpr, mode="eval").body, sub)
         self._check_invs(lc, fr, "inv-init")
         self._havoc_loop(lc, st, fr)
@@ -462,7 +499,10 @@ class Ctx:
         self.assume(sym.num_cmp("<=", i, n))
         self._assume_invs(lc, fr)
         if self.branch(sym.num_cmp("<", i, n), st):
-            x = I.getitem(it, i, st)
+            if isinstance(it, range):
+                x = it.start + i * it.step
+            else:
+                x = I.getitem(it, i, st)
             I.assign(st.target, x, fr)
             try:
                 I.exec_block(st.body, fr)
@@ -564,6 +604,12 @@ class Ctx:
         return NotImplemented
 
     def getattr_hook(self, I, obj, name, node):
+        fr = getattr(self.contract, "forbid_reads", None)
+        if fr and isinstance(obj, PObj) and name in fr and self.callstack:
+            # a `reads` obligation: the code under contract must not depend on this attribute
+            self.check(False, f"{self.contract.name}/reads:{name}", "reads",
+                       f"code under contract reads .{name} (line {getattr(node, 'lineno', '?')} in {self.callstack[-1]})",
+                       getattr(node, "lineno", None))
         for p in self.plugins:
             r = p.getattr(I, obj, name, node)
             if r is not NotImplemented:
@@ -625,6 +671,8 @@ class Ctx:
         return NotImplemented
 
     def on_write(self, obj, field, val, node):
+        if self.speculating and id(obj) in self.entry_ids_all:
+            raise SpecAbort()
         self.writes.append((obj, field, getattr(node, "lineno", None)))
 
     def enter(self, info):
@@ -846,13 +894,45 @@ class Ctx:
             return v, ("named", desc.name, r)
         if isinstance(desc, T.Ref):
             if desc.name not in self.named:
-                raise Unsupported(f"Ref({desc.name}) before definition")
+                d = _Deferred(desc.name)
+                self.deferred.append(d)
+                return d, ("ref", desc.name)
             return self.named[desc.name]
         for p in self.plugins:
             r = p.make(self, desc, name)
             if r is not NotImplemented:
                 return r
         raise Unsupported(f"descriptor {desc!r}")
+
+    def resolve_deferred(self, env):
+        if not self.deferred:
+            return
+        seen = set()
+
+        def fix(v):
+            if isinstance(v, _Deferred):
+                if v.name not in self.named:
+                    raise Unsupported(f"Ref({v.name}) never defined")
+                return self.named[v.name][0]
+            if isinstance(v, (PObj, PList, PDict)):
+                if id(v) in seen:
+                    return v
+                seen.add(id(v))
+                if isinstance(v, PObj):
+                    for k in list(v.fields):
+                        v.fields[k] = fix(v.fields[k])
+                elif isinstance(v, PList):
+                    v.items[:] = [fix(x) for x in v.items]
+                else:
+                    v.entries[:] = [(fix(k), fix(x)) for k, x in v.entries]
+                return v
+            if isinstance(v, tuple):
+                return tuple(fix(x) for x in v)
+            return v
+
+        for k in list(env):
+            env[k] = fix(env[k])
+        self.deferred = []
 
     def lift(self, v):
         """Native Python constant -> modelled value."""
@@ -954,6 +1034,8 @@ class Ctx:
 
     # ------------------------------------------------------------------ obligations
     def check(self, goal, name, kind, text, line=None):
+        if self.speculating:
+            raise SpecAbort()
         ob = self.result.oblig(name, kind, text)
         if goal is True:
             ob.merge("discharged", 0.0, "trivial")
@@ -1090,6 +1172,8 @@ class Ctx:
 
     def apply_contract(self, I, c, info, args, kwargs, node, fr):
         """Modular call: check requires, havoc the frame, assume ensures."""
+        if self.speculating:
+            raise SpecAbort()
         loc = I.bind_args(info, args, kwargs, fr)
         site = f"{self.contract.name}/pre@{c.name}#L{getattr(node, 'lineno', 0)}"
         for i, text in enumerate(c.requires):
@@ -1176,6 +1260,7 @@ class Ctx:
                     v, rec = self.make(desc, pname)
                     env[pname] = v
                     self.inputs[pname] = rec
+                self.resolve_deferred(env)
                 for nm, (v, _) in self.named.items():
                     env.setdefault(nm, v)
                 for p in self.plugins:
@@ -1321,6 +1406,7 @@ class Ctx:
             v, rec = self.make(desc, pname)
             env[pname] = v
             self.inputs[pname] = rec
+        self.resolve_deferred(env)
         for n, (v, _) in self.named.items():
             env.setdefault(n, v)
         for p in self.plugins:
